@@ -1,6 +1,320 @@
-//! ops family `codec` (stub — replaced when the family is implemented)
+//! ops family `codec` (C05, C06, C13, C14, C18): serialization, both decoders, fault-injecting readers and
+//! writers, `intersection_with_serialized_unchecked`, and the harness' own reference codec.
 use super::*;
+use crate::gen::stream;
+use std::io::{self, Cursor, Read, Write as IoWrite};
 
-pub fn handle(_st: &mut State, _toks: &[&str]) -> HResult {
-    None
+fn fnv_bytes(bs: &[u8]) -> u64 {
+    bs.iter().fold(FNV_BASIS, |h, &x| fnv_step(h, x as u64))
+}
+
+fn show_bytes(bs: &[u8]) -> String {
+    if bs.len() <= 64 {
+        format!("n={} hex:{}", bs.len(), hex_bytes(bs))
+    } else {
+        format!("n={} sh={:016x}", bs.len(), fnv_bytes(bs))
+    }
+}
+
+#[derive(Clone, Copy)]
+enum Ev {
+    Intr,
+    Chunk(usize),
+}
+
+/// `sched:` (plain) or `sched:3,i,1` (cycled; must contain a chunk, chunks are 1..=1000000)
+fn parse_sched(t: &str) -> Option<Vec<Ev>> {
+    let body = t.strip_prefix("sched:")?;
+    if body.is_empty() {
+        return Some(vec![]);
+    }
+    let mut v = Vec::new();
+    for p in body.split(',') {
+        if p == "i" {
+            v.push(Ev::Intr)
+        } else {
+            // same token language as the Lean driver's `String.toNat?`: decimal digits only
+            if p.is_empty() || !p.bytes().all(|c| c.is_ascii_digit()) {
+                return None;
+            }
+            let n: usize = p.parse().ok()?;
+            if !(1..=1_000_000).contains(&n) {
+                return None;
+            }
+            v.push(Ev::Chunk(n))
+        }
+    }
+    if v.iter().any(|e| matches!(e, Ev::Chunk(_))) {
+        Some(v)
+    } else {
+        None
+    }
+}
+
+/// a reader that hands out the data according to a cycled schedule of `read()` results
+struct SchedReader<'a> {
+    data: &'a [u8],
+    pos: usize,
+    sched: Vec<Ev>,
+    i: usize,
+}
+
+impl Read for SchedReader<'_> {
+    fn read(&mut self, buf: &mut [u8]) -> io::Result<usize> {
+        let ev = if self.sched.is_empty() {
+            Ev::Chunk(usize::MAX)
+        } else {
+            let e = self.sched[self.i % self.sched.len()];
+            self.i += 1;
+            e
+        };
+        match ev {
+            Ev::Intr => Err(io::ErrorKind::Interrupted.into()),
+            Ev::Chunk(k) => {
+                let m = k.min(buf.len()).min(self.data.len() - self.pos);
+                buf[..m].copy_from_slice(&self.data[self.pos..self.pos + m]);
+                self.pos += m;
+                Ok(m)
+            }
+        }
+    }
+}
+
+/// a sink that accepts `limit` bytes in scheduled chunk sizes, then fails (`Err`) or returns `Ok(0)`
+struct LimWriter {
+    acc: Vec<u8>,
+    limit: usize,
+    zero: bool,
+    sched: Vec<Ev>,
+    i: usize,
+}
+
+impl IoWrite for LimWriter {
+    fn write(&mut self, buf: &[u8]) -> io::Result<usize> {
+        let ev = if self.sched.is_empty() {
+            Ev::Chunk(usize::MAX)
+        } else {
+            let e = self.sched[self.i % self.sched.len()];
+            self.i += 1;
+            e
+        };
+        match ev {
+            Ev::Intr => Err(io::ErrorKind::Interrupted.into()),
+            Ev::Chunk(k) => {
+                let room = self.limit - self.acc.len();
+                let m = k.min(buf.len()).min(room);
+                if m == 0 {
+                    return if self.zero { Ok(0) } else { Err(io::Error::new(io::ErrorKind::Other, "sink full")) };
+                }
+                self.acc.extend_from_slice(&buf[..m]);
+                Ok(m)
+            }
+        }
+    }
+    fn flush(&mut self) -> io::Result<()> {
+        Ok(())
+    }
+}
+
+/// C13 oracle evaluated on the real value, through the public API only: every observer agrees with the
+/// value's own iteration, it equals the natively built set, and it re-serialises to a stream of the
+/// announced size that decodes to the same value.
+pub fn consistent(b: &RoaringBitmap) -> bool {
+    let v: Vec<u32> = b.iter().collect();
+    let asc = v.windows(2).all(|w| w[0] < w[1]);
+    let rev: Vec<u32> = b.iter().rev().collect();
+    let rev_ok = rev.iter().rev().eq(v.iter());
+    let len_ok = b.len() == v.len() as u64 && b.is_empty() == v.is_empty();
+    let mm_ok = b.min() == v.first().copied() && b.max() == v.last().copied();
+    let contains_ok = v.iter().all(|&x| b.contains(x));
+    let step = (v.len() / 512).max(1);
+    let rank_ok = v.iter().enumerate().step_by(step).all(|(i, &x)| b.rank(x) == i as u64 + 1 && b.select(i as u32) == Some(x));
+    let native: RoaringBitmap = v.iter().copied().collect();
+    let eq_ok = *b == native;
+    let mut bytes = Vec::new();
+    let ser_ok = b.serialize_into(&mut bytes).is_ok() && bytes.len() == b.serialized_size();
+    let mut nat_bytes = Vec::new();
+    native.serialize_into(&mut nat_bytes).unwrap();
+    let rt_ok = match RoaringBitmap::deserialize_from(&bytes[..]) {
+        Ok(d) => d == *b && d.iter().eq(v.iter().copied()),
+        Err(_) => false,
+    };
+    asc && rev_ok && len_ok && mm_ok && contains_ok && rank_ok && eq_ok && ser_ok && rt_ok && nat_bytes == bytes
+}
+
+fn mode(t: &str) -> Option<bool> {
+    match t {
+        "chk" => Some(true),
+        "unchk" => Some(false),
+        _ => None,
+    }
+}
+
+fn decode_with<R: Read>(chk: bool, rd: R) -> io::Result<RoaringBitmap> {
+    if chk {
+        RoaringBitmap::deserialize_from(rd)
+    } else {
+        RoaringBitmap::deserialize_unchecked_from(rd)
+    }
+}
+
+fn show_deser(chk: bool, b: &RoaringBitmap, rest: usize) -> String {
+    if chk {
+        format!("ok rest={} wf={}", rest, consistent(b))
+    } else {
+        format!("ok rest={}", rest)
+    }
+}
+
+fn u64tok(t: &str) -> Option<u64> {
+    if t.is_empty() || !t.bytes().all(|c| c.is_ascii_digit()) {
+        return None;
+    }
+    t.parse().ok()
+}
+
+pub fn test_data_bitmap() -> RoaringBitmap {
+    // roaring/tests/serialization.rs
+    (0..100).map(|i| i * 1000).chain((100_000..200_000).map(|i| i * 3)).chain(700_000..800_000).collect::<RoaringBitmap>()
+}
+
+pub fn handle(st: &mut State, toks: &[&str]) -> HResult {
+    match toks {
+        ["note", ..] => Some("ok".to_string()),
+        ["ser", d] => {
+            let b = st.bm[slot('b', d)?].as_ref()?;
+            let mut bytes = Vec::new();
+            b.serialize_into(&mut bytes).unwrap();
+            Some(show_bytes(&bytes))
+        }
+        ["ser_size", d] => Some(st.bm[slot('b', d)?].as_ref()?.serialized_size().to_string()),
+        ["spec_encode", d] => {
+            let b = st.bm[slot('b', d)?].as_ref()?;
+            Some(show_bytes(&stream::encode_set(b.iter())))
+        }
+        ["spec_decode", h] => {
+            let bytes = parse_hex(h)?;
+            Some(match stream::decode(&bytes) {
+                Some((set, rest)) => {
+                    let mut re = stream::encode_set(set.iter().copied());
+                    re.extend_from_slice(&bytes[bytes.len() - rest..]);
+                    let eh = set.iter().fold(FNV_BASIS, |h, &x| fnv_step(h, x as u64));
+                    format!("ok len={} eh={:016x} rest={} same={}", set.len(), eh, rest, re == bytes)
+                }
+                None => "err".to_string(),
+            })
+        }
+        ["testdata", d] => {
+            st.bm[slot('b', d)?] = Some(test_data_bitmap());
+            Some("ok".to_string())
+        }
+        ["deser", m, d, h] => {
+            let chk = mode(m)?;
+            let i = slot('b', d)?;
+            let bytes = parse_hex(h)?;
+            let mut rd: &[u8] = &bytes;
+            Some(match decode_with(chk, &mut rd) {
+                Ok(b) => {
+                    let s = show_deser(chk, &b, rd.len());
+                    st.bm[i] = Some(b);
+                    s
+                }
+                Err(_) => "err".to_string(),
+            })
+        }
+        ["deser_trunc", m, d, k, h] => {
+            let chk = mode(m)?;
+            let i = slot('b', d)?;
+            let k = u64tok(k)?;
+            let bytes = parse_hex(h)?;
+            let k = (k.min(bytes.len() as u64)) as usize;
+            let mut rd: &[u8] = &bytes[..k];
+            Some(match decode_with(chk, &mut rd) {
+                Ok(b) => {
+                    let s = show_deser(chk, &b, rd.len());
+                    st.bm[i] = Some(b);
+                    s
+                }
+                Err(_) => "err".to_string(),
+            })
+        }
+        ["deser_sched", m, d, sc, h] => {
+            let chk = mode(m)?;
+            let i = slot('b', d)?;
+            let sched = parse_sched(sc)?;
+            let bytes = parse_hex(h)?;
+            let mut rd = SchedReader { data: &bytes, pos: 0, sched, i: 0 };
+            Some(match decode_with(chk, &mut rd) {
+                Ok(b) => {
+                    let s = show_deser(chk, &b, bytes.len() - rd.pos);
+                    st.bm[i] = Some(b);
+                    s
+                }
+                Err(_) => "err".to_string(),
+            })
+        }
+        ["deser_prefix", m, d, s, k] => {
+            let chk = mode(m)?;
+            let i = slot('b', d)?;
+            let src = st.bm[slot('b', s)?].as_ref()?;
+            let k = u64tok(k)?;
+            let mut bytes = Vec::new();
+            src.serialize_into(&mut bytes).unwrap();
+            let k = (k.min(bytes.len() as u64)) as usize;
+            let mut rd: &[u8] = &bytes[..k];
+            Some(match decode_with(chk, &mut rd) {
+                Ok(b) => {
+                    let s = format!("ok rest={} eq={}", rd.len(), b == *src);
+                    st.bm[i] = Some(b);
+                    s
+                }
+                Err(_) => "err".to_string(),
+            })
+        }
+        ["ser_fail", d, lim, md, sc] => {
+            let b = st.bm[slot('b', d)?].as_ref()?;
+            let limit = u64tok(lim.strip_prefix("limit:")?)?;
+            let zero = match md.strip_prefix("mode:")? {
+                "zero" => true,
+                "err" => false,
+                _ => return None,
+            };
+            let sched = parse_sched(sc)?;
+            let mut w = LimWriter { acc: Vec::new(), limit: limit.min(1 << 40) as usize, zero, sched, i: 0 };
+            let r = b.serialize_into(&mut w);
+            Some(format!(
+                "{} n={} sh={:016x}",
+                if r.is_ok() { "ok" } else { "err" },
+                w.acc.len(),
+                fnv_bytes(&w.acc)
+            ))
+        }
+        ["inter_ser", d, l, h] => {
+            let i = slot('b', d)?;
+            let a = st.bm[slot('b', l)?].as_ref()?;
+            let bytes = parse_hex(h)?;
+            Some(match a.intersection_with_serialized_unchecked(Cursor::new(bytes)) {
+                Ok(b) => {
+                    st.bm[i] = Some(b);
+                    "ok".to_string()
+                }
+                Err(_) => "err".to_string(),
+            })
+        }
+        ["inter_ser_trunc", d, l, k, h] => {
+            let i = slot('b', d)?;
+            let a = st.bm[slot('b', l)?].as_ref()?;
+            let k = u64tok(k)?;
+            let mut bytes = parse_hex(h)?;
+            bytes.truncate(k.min(bytes.len() as u64) as usize);
+            Some(match a.intersection_with_serialized_unchecked(Cursor::new(&bytes[..])) {
+                Ok(b) => {
+                    st.bm[i] = Some(b);
+                    "ok".to_string()
+                }
+                Err(_) => "err".to_string(),
+            })
+        }
+        _ => None,
+    }
 }
